@@ -833,6 +833,10 @@ impl Server {
                         registering_prepared_statement: VecDeque::new(),
                     };
 
+                    crate::vtrace!("server_connect", "spid" => server.process_id, "addr" => address.id,
+                        "port" => address.port, "shard" => address.shard,
+                        "role" => format!("{:?}", address.role), "user" => user.username.as_str());
+
                     return Ok(server);
                 }
 
@@ -879,6 +883,8 @@ impl Server {
 
     /// Send messages to the server from the client.
     pub async fn send(&mut self, messages: &BytesMut) -> Result<(), Error> {
+        crate::vtrace!("server_send", "spid" => self.process_id, "len" => messages.len(),
+            "code" => messages.first().map(|c| (*c as char).to_string()).unwrap_or_default());
         self.mirror_send(messages);
         self.stats().data_sent(messages.len());
 
@@ -1110,6 +1116,8 @@ impl Server {
         // Successfully received data from server
         self.last_activity = SystemTime::now();
 
+        crate::vtrace!("server_recv", "spid" => self.process_id, "len" => bytes.len(),
+            "da" => self.data_available, "in_tx" => self.in_transaction, "in_copy" => self.in_copy_mode);
         // Pass the data back to the client.
         Ok(bytes)
     }
@@ -1213,6 +1221,22 @@ impl Server {
         }
     }
 
+    #[cfg(feature = "verif")]
+    pub fn verif_pid(&self) -> i32 {
+        self.process_id
+    }
+
+    #[cfg(feature = "verif")]
+    pub fn verif_state(&self) -> (bool, bool, bool, bool, bool) {
+        (
+            self.bad,
+            self.in_transaction,
+            self.in_copy_mode,
+            self.data_available,
+            self.cleanup_state.needs_cleanup(),
+        )
+    }
+
     /// If the server is still inside a transaction.
     /// If the client disconnects while the server is in a transaction, we will clean it up.
     pub fn in_transaction(&self) -> bool {
@@ -1260,6 +1284,7 @@ impl Server {
 
     pub async fn sync_parameters(&mut self, parameters: &ServerParameters) -> Result<(), Error> {
         let parameter_diff = self.server_parameters.compare_params(parameters);
+        crate::vtrace!("sync_params", "spid" => self.process_id, "n" => parameter_diff.len());
 
         if parameter_diff.is_empty() {
             return Ok(());
@@ -1280,6 +1305,7 @@ impl Server {
 
     /// Indicate that this server connection cannot be re-used and must be discarded.
     pub fn mark_bad(&mut self, reason: &str) {
+        crate::vtrace!("mark_bad", "spid" => self.process_id, "why" => reason);
         error!("Server {:?} marked bad, reason: {}", self.address, reason);
         self.bad = true;
     }
@@ -1296,6 +1322,7 @@ impl Server {
                 self.address.port,
             ),
         );
+        crate::vtrace!("claim", "pid" => process_id, "spid" => self.process_id);
     }
 
     /// Execute an arbitrary query against the server.
@@ -1326,6 +1353,10 @@ impl Server {
         // Pgbouncer behavior is to close the server connection but that can cause
         // server connection thrashing if clients repeatedly do this.
         // Instead, we ROLLBACK that transaction before putting the connection back in the pool
+        crate::vtrace!("cleanup_begin", "spid" => self.process_id, "in_tx" => self.in_transaction,
+            "in_copy" => self.in_copy_mode, "data_avail" => self.data_available,
+            "dirty_set" => self.cleanup_state.needs_cleanup_set,
+            "dirty_prep" => self.cleanup_state.needs_cleanup_prepare);
         if self.in_transaction() {
             warn!(target: "pgcat::server::cleanup", "Server returned while still in transaction, rolling back transaction");
             self.query("ROLLBACK").await?;
@@ -1356,6 +1387,8 @@ impl Server {
             self.cleanup_state.reset();
         }
 
+        crate::vtrace!("cleanup_end", "spid" => self.process_id, "in_tx" => self.in_transaction,
+            "in_copy" => self.in_copy_mode);
         if self.in_copy_mode() {
             warn!(target: "pgcat::server::cleanup", "Server returned while still in copy-mode");
         }
@@ -1505,6 +1538,8 @@ impl Drop for Server {
     /// for a write.
     fn drop(&mut self) {
         self.mirror_disconnect();
+        crate::vtrace!("server_drop", "spid" => self.process_id, "addr" => self.address.id,
+            "bad" => self.bad, "in_tx" => self.in_transaction, "in_copy" => self.in_copy_mode);
 
         // Update statistics
         self.stats.disconnect();
